@@ -59,7 +59,12 @@ def srv_token(slot, data):
 
 
 def cli_payload(tok):
-    """Payload a client sends for message token m<n> / mE<n> / mX<n>."""
+    """Payload a client sends for message token m<n> / mE<n> / mX<n>; mZ<k> / mY<k> are
+    size probes: a text / binary payload padded with k filler characters."""
+    if tok.startswith('mZ'):
+        return 'c:' + tok + ':' + 'x' * int(tok[2:])
+    if tok.startswith('mY'):
+        return ('c:' + tok + ':' + 'x' * int(tok[2:])).encode()
     digits = ''.join(c for c in tok if c.isdigit())
     n = int(digits) if digits else 1
     if tok.startswith(('mE', 'mX')):
@@ -74,6 +79,14 @@ def cli_payload(tok):
 
 def cli_token(data):
     try:
+        if isinstance(data, str) and data.startswith('c:mZ'):
+            tok = data[2:].split(':')[0]
+            if cli_payload(tok) == data:
+                return tok
+        if isinstance(data, (bytes, bytearray)) and bytes(data).startswith(b'c:mY'):
+            tok = bytes(data)[2:].split(b':')[0].decode()
+            if cli_payload(tok) == bytes(data):
+                return tok
         if isinstance(data, str) and data.startswith('c:'):
             tok = data[2:]
             if cli_payload(tok) == data:
